@@ -294,14 +294,26 @@ fn escape_soup() -> BoxedStrategy<Vec<u8>> {
 
 /// Timestamps assembled from boundary parts: days and hours on which named zones skip or repeat local time, the
 /// ends of the year range, leap seconds, offsets in and out of range, known / unknown / absent zone names.
-fn timestamp_soup() -> BoxedStrategy<Vec<u8>> {
-    let date = prop::sample::select(vec!["2021-03-14", "2021-11-07", "2021-03-28", "2021-10-31", "2021-04-04", "2021-10-03", "0000-01-01", "9999-12-31", "2020-02-29", "2021-02-29", "2021-13-01", "1883-11-18", "1970-01-01"]);
+pub fn timestamp_text() -> BoxedStrategy<String> {
+    let date = prop::sample::select(vec![
+        "2021-03-14", "2021-11-07", "2021-03-28", "2021-10-31", "2021-04-04", "2021-10-03", "0000-01-01", "9999-12-31", "2020-02-29", "2021-02-29", "2021-13-01", "1883-11-18", "1970-01-01",
+        "1900-02-29", "2100-02-29", "2000-02-29", "0100-02-29", "2400-02-29", "2021-04-31", "2021-00-10", "2021-06-00",
+    ]);
     let time = prop::sample::select(vec!["02:30:00", "01:30:00", "02:00:00", "03:00:00", "01:59:59.999999999", "23:59:60", "24:00:00", "00:00:00", "12:00:00.5", "2:30:00", "02:30"]);
     let offset = prop::sample::select(vec!["Z", "+00:00", "-00:00", "-05:00", "-04:00", "+01:00", "+02:00", "+10:30", "+11:00", "+24:00", "+99:99", "-24:00", "+14:00", "+15:00", "+5:00", "+0530", "-00:45", ""]);
     let zone = prop::sample::select(vec![" New_York", " London", " Berlin", " UTC", " Nowhere", "", " Sydney", " Lord_Howe", " GMT+5", " EST", " Monrovia", " Kiritimati", " new_york", "  Paris"]);
-    (date, time, offset, zone, 0u8..5)
-        .prop_map(|(d, t, o, z, wrap)| {
-            let ts = format!("{d}T{t}{o}{z}");
+    (date, time, offset, zone, 0u8..8)
+        .prop_map(|(d, t, o, z, form)| match form {
+            0 => d.to_string(),       // a bare date
+            1 => format!("{d}T{t}"), // no zone at all
+            _ => format!("{d}T{t}{o}{z}"),
+        })
+        .boxed()
+}
+
+fn timestamp_soup() -> BoxedStrategy<Vec<u8>> {
+    (timestamp_text(), 0u8..5)
+        .prop_map(|(ts, wrap)| {
             match wrap {
                 0 => ts,
                 1 => format!("[{ts}]"),
